@@ -262,6 +262,12 @@ def build():
             technique=c["technique"]))
         engines.append(dict(name="tlc+" + "+".join(c["spec"][:2]), path="/verif/spec/%s.tla" % c["spec"][0], serves_properties=[pid],
                             kind_free_text="TLA+ modules %s checked by TLC 1.8; bound to /repo by vf/props/%s.py" % (", ".join(c["spec"]), pid.lower())))
+    try:                                    # specification modules beyond the listed properties (run with ./check Xnn; never a VIOLATION line)
+        from . import registry2 as _r2x
+        for e in getattr(_r2x, "EXTENSIONS", []):
+            engines.append(dict(name=e["name"], path=e["path"], serves_properties=[], kind_free_text=e["text"]))
+    except ImportError:
+        pass
     na = [dict(property_id=p, reason=NA.get(p, NOT_YET)) for p in ids if p not in CLAIMED]
     m = dict(
         version=1,
